@@ -292,7 +292,7 @@ func drawSide(t *rapid.T, cfg *ImgCfg, name string) int {
 }
 
 var contentClasses = []string{"flat", "pal2", "pal4", "pal16", "pal256", "gradient", "photo", "noise", "tiled", "sparse", "regions", "bands", "drawn", "outlier", "dyadic", "lenfib", "letterbox"}
-var alphaClasses = []string{"opaque", "opaque", "binary", "levels", "gradient", "noise", "transparent", "transp-colored", "semi-flat", "late", "early"}
+var alphaClasses = []string{"opaque", "opaque", "binary", "levels", "gradient", "noise", "transparent", "transp-colored", "semi-flat", "late", "early", "holes"}
 
 // DrawImg draws a picture case.
 func DrawImg(t *rapid.T, cfg ImgCfg) *Img {
@@ -774,10 +774,28 @@ func RenderContent(w, h int, content, alpha string, seed uint64) []byte {
 	lateN := 1 + r.Intn(maxInt(1, minInt(w, 9)))
 	lateA := byte(r.Intn(255))
 	blk := 1 + r.Intn(6)
+	// holes: 1-3 fully transparent rectangles (each up to 3/4 of a side, so whole 8x8 blocks lie
+	// inside) whose pixels KEEP their colours; everything else opaque
+	type hole struct{ x0, y0, x1, y1 int }
+	var holes []hole
+	if alpha == "holes" {
+		for k := 1 + r.Intn(3); k > 0; k-- {
+			hw, hh := 1+r.Intn(maxInt(1, w*3/4)), 1+r.Intn(maxInt(1, h*3/4))
+			x0, y0 := r.Intn(w-hw+1), r.Intn(h-hh+1)
+			holes = append(holes, hole{x0, y0, x0 + hw, y0 + hh})
+		}
+	}
 	for y := 0; y < h; y++ {
 		for x := 0; x < w; x++ {
 			i := (y*w+x)*4 + 3
 			switch alpha {
+			case "holes":
+				pix[i] = 255
+				for _, q := range holes {
+					if x >= q.x0 && x < q.x1 && y >= q.y0 && y < q.y1 {
+						pix[i] = 0
+					}
+				}
 			case "opaque":
 				pix[i] = 255
 			case "binary":
